@@ -785,3 +785,89 @@ Proof.
         rewrite find_trk_map in Hcov by (intros k0; apply stale_one_fields). rewrite Hf in Hcov.
         specialize (Hcov eq_refl). destruct (stale_one_fields e h uuid k') as [_ [_ Hp]]. rewrite Hp in Hcov. exact Hcov.
 Qed.
+
+(* ------------------------------------------------------------------------------------------ *)
+(* 2. refunds *)
+
+Definition credit (n : N) (ui : uinfo) : uinfo := mk_uinfo (u_slots ui + n) (u_start ui) (u_expiry ui).
+
+(* the slots of the rows `us` owned by u *)
+Fixpoint refund_total (apps : list app) (us : list (N * N)) (u : N) : N :=
+  match us with
+  | [] => 0
+  | uuid :: r =>
+      match find_app apps uuid with
+      | Some a => if N.eqb (a_user a) u then slots_of (b_len (a_blob a)) else 0
+      | None => 0
+      end + refund_total apps r u
+  end.
+
+Lemma credit_0 ui : credit 0 ui = ui.
+Proof. unfold credit. rewrite N.add_0_r. destruct ui; reflexivity. Qed.
+
+Lemma credit_credit a b ui : credit b (credit a ui) = credit (a + b) ui.
+Proof. unfold credit. cbn [u_slots u_start u_expiry]. rewrite N.add_assoc. reflexivity. Qed.
+
+Lemma option_map_credit_0 o : option_map (credit 0) o = o.
+Proof. destruct o; [cbn; rewrite credit_0|]; reflexivity. Qed.
+
+Definition with_users (t : tower) (g d : list (N * uinfo)) : tower := set_db_users (set_gk_users t g) d.
+
+Lemma with_users_id t : with_users t (gk_users t) (db_users t) = t.
+Proof. destruct t; reflexivity. Qed.
+
+Lemma refund_loop_spec us : forall t t',
+  Inv t -> refund_loop t us = Ok tt t' ->
+  (exists g d, t' = with_users t g d) /\
+  (forall u, aget (gk_users t') u = option_map (credit (refund_total (db_apps t) us u)) (aget (gk_users t) u)) /\
+  (forall u, aget (db_users t') u = option_map (credit (refund_total (db_apps t) us u)) (aget (db_users t) u)) /\
+  (forall uuid, In uuid us -> exists a, find_app (db_apps t) uuid = Some a).
+Proof.
+  induction us as [|uuid r IH]; intros t t' HI E.
+  - cbn [refund_loop] in E. inversion E; subst. split; [exists (gk_users t'), (db_users t'); symmetry; apply with_users_id|].
+    cbn [refund_total]. split; [|split]; [intros u; rewrite option_map_credit_0; reflexivity..|intros ? []].
+  - cbn [refund_loop] in E. destruct (find_app (db_apps t) uuid) as [a|] eqn:Ea; [|discriminate].
+    destruct (gk_get t (a_user a)) as [ui|] eqn:Eg; [|discriminate].
+    destruct (u32_add (u_slots ui) (slots_of (b_len (a_blob a)))) as [s|] eqn:Es; [|discriminate].
+    assert (Hs : s = u_slots ui + slots_of (b_len (a_blob a))).
+    { unfold u32_add in Es. destruct (N.leb _ _); congruence. }
+    pose proof (inv_refund t (a_user a) ui s HI Eg) as HI1.
+    apply IH in E; [|exact HI1]. destruct E as [[g [d Et]] [Hg [Hd Hr]]].
+    split; [|split; [|split]].
+    + exists g, d. rewrite Et. reflexivity.
+    + intros u. rewrite Hg. change (db_apps (p_refund_user t (a_user a) ui s)) with (db_apps t).
+      cbn [refund_total]. rewrite Ea. unfold p_refund_user, db_update_user_slots, gk_put.
+      cbn [gk_users set_db_users set_gk_users aget]. rewrite aget_remove.
+      destruct (N.eqb u (a_user a)) eqn:E.
+      * apply N.eqb_eq in E. subst u. rewrite N.eqb_refl. unfold gk_get in Eg. rewrite Eg. cbn [option_map].
+        f_equal. rewrite <- credit_credit. f_equal. unfold credit. rewrite Hs. reflexivity.
+      * rewrite N.eqb_sym, E. rewrite N.add_0_l. reflexivity.
+    + intros u. rewrite Hd. change (db_apps (p_refund_user t (a_user a) ui s)) with (db_apps t).
+      cbn [refund_total]. rewrite Ea. unfold p_refund_user, db_update_user_slots, gk_put.
+      cbn [db_users set_db_users set_gk_users]. rewrite aget_map_slots.
+      destruct (N.eqb u (a_user a)) eqn:E.
+      * apply N.eqb_eq in E. subst u. rewrite N.eqb_refl. rewrite <- (inv_sync t HI). unfold gk_get in Eg. rewrite Eg.
+        cbn [option_map]. f_equal. rewrite <- credit_credit. f_equal. unfold credit. rewrite Hs. reflexivity.
+      * rewrite N.eqb_sym, E. rewrite N.add_0_l. reflexivity.
+    + intros u [Hu|Hu]; [subst; eauto|]. apply Hr. exact Hu.
+Qed.
+
+Lemma db_delete_apps_nil t : db_delete_apps t [] = t.
+Proof.
+  unfold db_delete_apps. cbn [mem_uuid existsb negb db_apps db_trks set_db_apps]. rewrite !filter_true.
+  destruct t; reflexivity.
+Qed.
+
+Lemma delete_opt t us refund :
+  match us with [] => Ok tt t | _ => gk_delete_appointments t us refund end = gk_delete_appointments t us refund.
+Proof.
+  destruct us; [|reflexivity]. unfold gk_delete_appointments. destruct refund; cbn [refund_loop bind];
+    rewrite db_delete_apps_nil; reflexivity.
+Qed.
+
+Lemma reorged_opt sc h t :
+  match reorged t with [] => Ok [] t | us => reorged_loop sc h us (set_reorged t []) [] end
+  = reorged_loop sc h (reorged t) (set_reorged t []) [].
+Proof.
+  destruct (reorged t) eqn:E; [|reflexivity]. cbn [reorged_loop]. destruct t; cbn in *; subst; reflexivity.
+Qed.
